@@ -30,12 +30,12 @@ Produce TWO independent changes at different code sites / mechanisms, in {wt}/se
                     clean checkout; do not include the seed/ directory in it);
   2. demo.py      - a small stand-alone program that prints what it observes and exits 0 when the property holds and
                     1 when it is violated; it must exit 0 on the unmodified code and 1 with the patch applied
-                    (check both, e.g. with `git stash`); it is run as `PYTHONPATH=<checkout> /venv/bin/python demo.py`;
+                    (check both; undo a patch with `git apply -R patch.diff` — NEVER use `git stash`: the stash is shared with other worktrees of this repository); it is run as `PYTHONPATH=<checkout> /venv/bin/python demo.py`;
   3. meta.json    - {{"property": "{p['id']}", "summary": "...", "needs_to_manifest": "...", "files_touched": [...],
                     "tests_run": "<command> -> <result>"}}.
 Run the existing tests that are related to the files you touched (for example
 `cd {wt} && PYTHONPATH={wt} /venv/bin/python -m pytest -q -p no:cacheprovider -n 4 pandapower/test/<dir>`), with the
 patch applied, and make sure they pass exactly as they do without it (some tests, e.g. under
 pandapower/test/estimation, already fail on the unmodified code; that is expected). Keep only one patch applied at a
-time when testing. When done, leave the worktree source UNMODIFIED (git stash / checkout) with only the seed/ directory
+time when testing. When done, leave the worktree source UNMODIFIED (git apply -R / git checkout -- .) with only the seed/ directory
 added, and reply with a short summary of both changes (what, where, what is needed to manifest, test results).""")
